@@ -1,0 +1,13 @@
+//go:build verif
+
+package utils
+
+// VerifEvent, when set, is called on named events of the UDP receiver.
+// Only compiled with the `verif` build tag (verification harness).
+var VerifEvent func(name string, n int)
+
+func verifEvent(name string, n int) {
+	if h := VerifEvent; h != nil {
+		h(name, n)
+	}
+}
